@@ -92,15 +92,21 @@ def lake_build(targets):
     return rc == 0, out
 
 
-def theorem_names(pid):
-    """Names of the property theorems declared in JRV/Properties/<pid>.lean (prefix `<pid>_`)."""
-    path = os.path.join(LEAN, "JRV", "Properties", pid + ".lean")
+def theorem_names(pid, suffix=""):
+    """Names of the property theorems declared in JRV/Properties/<pid><suffix>.lean (prefix `<pid>_`)."""
+    path = os.path.join(LEAN, "JRV", "Properties", pid + suffix + ".lean")
     try:
         src = open(path).read()
     except OSError:
         return []
     src = strip_comments(src)
     return re.findall(r"^\s*theorem\s+(%s_[A-Za-z0-9_']+)" % pid, src, re.M)
+
+
+def has_gen_module(pid):
+    """Companion theorems of extracted facts may live in JRV/Properties/<pid>Gen.lean, so that a changed fact
+    fails its own obligations only and not the property theorems next to it."""
+    return os.path.isfile(os.path.join(LEAN, "JRV", "Properties", pid + "Gen.lean"))
 
 
 def strip_comments(src):
@@ -143,15 +149,15 @@ def forbidden_tokens():
     return hits
 
 
-def audit(pid, names):
+def audit(pid, names, module=None):
     """#print axioms for each theorem; returns {name: [axioms]} or raises InfraError."""
     if not names:
         return {}, ""
     d = os.path.join(LEAN, ".audit")
     os.makedirs(d, exist_ok=True)
-    path = os.path.join(d, "Audit_%s_%d.lean" % (pid, os.getpid()))
+    path = os.path.join(d, "Audit_%s_%d.lean" % (module or pid, os.getpid()))
     with open(path, "w") as fh:
-        fh.write("import JRV.Properties.%s\n" % pid)
+        fh.write("import JRV.Properties.%s\n" % (module or pid))
         for n in names:
             fh.write("#print axioms JRV.Props.%s\n" % n)
     try:
@@ -355,16 +361,28 @@ def prepare(pid, required):
         ok, out = lake_build(["JRV.Properties." + pid])
         build_out = out
         names = theorem_names(pid)
-        obligations = list(dict.fromkeys(list(required) + names))
+        gen_names = theorem_names(pid, "Gen") if has_gen_module(pid) else []
+        obligations = list(dict.fromkeys(list(required) + names + gen_names))
         axioms = {}
         if ok:
-            axioms, audit_out = audit(pid, obligations)
+            axioms, audit_out = audit(pid, [n for n in obligations if n not in gen_names])
         else:
             log("property module does not build:\n" + out[-3000:])
+        gen_ok = True
+        if gen_names:
+            gen_ok, gout = lake_build(["JRV.Properties." + pid + "Gen"])
+            if gen_ok:
+                gax, _ = audit(pid, gen_names, module=pid + "Gen")
+                axioms.update(gax)
+            else:
+                log("companion module of extracted facts does not build:\n" + gout[-2000:])
+                build_out = (build_out if not ok else "") + gout
     bad_tokens = forbidden_tokens()
     discharged = 0
     for n in obligations:
-        if not ok:
+        if n in gen_names and not gen_ok:
+            broken.append(n + " (JRV.Properties.%sGen does not build: an extracted fact changed)" % pid)
+        elif n not in gen_names and not ok:
             broken.append(n + " (JRV.Properties.%s does not build)" % pid)
         elif n not in axioms:
             broken.append(n + " (theorem missing)")
@@ -377,7 +395,7 @@ def prepare(pid, required):
     for n, v in facts.get("_missing", {}).items():
         if pid in v.get("properties", []):
             broken.append("extractor pattern not found: %s (%s)" % (n, v.get("why", "")))
-    return facts, obligations, discharged, axioms, broken, (build_out if not ok else "")
+    return facts, obligations, discharged, axioms, broken, (build_out if (not ok or not gen_ok) else "")
 
 
 def anchor_files(pid):
